@@ -219,8 +219,8 @@ def run(ctx: Context) -> None:
     upd = [x for x in f if x[1] == 'update']
     ok = False
     if len(upd) == 1:
-        lens = [x for x in f if x[1] == 'hash_int' and isinstance(x[2], ast.Call) and dotted(x[2].func) == 'len'
-                and flow.canon(x[2].args[0]) == flow.canon(upd[0][2]) and (x[0].lineno, x[0].col_offset) < (upd[0][0].lineno, upd[0][0].col_offset)]
+        lens = [x for x in f if x[1] == 'hash_int' and isinstance(flow.resolve(x[2]), ast.Call) and dotted(flow.resolve(x[2]).func) == 'len'
+                and flow.canon(flow.resolve(x[2]).args[0]) == flow.canon(upd[0][2]) and (x[0].lineno, x[0].col_offset) < (upd[0][0].lineno, upd[0][0].col_offset)]
         ok = len(lens) == 1 and flow.reaches(upd[0][2], lambda n: isinstance(n, ast.Name) and n.id == ha.params[1])
     ctx.check('R16.2', ok, "hash_attributes feeds the byte length, then bytes derived from the whole attribute dictionary", ha, ha.node,
               construct=f"feeds: {[norm_text(x[0]) for x in f]}")
@@ -243,14 +243,15 @@ def run(ctx: Context) -> None:
     flow = ctx.flow(mk)
     hname = mk.params[1]
     f = feeds_of(ctx, mk, hname)
-    texts = [norm_text(x[2]) for x in f]
+    from .common import expand_locals as _x16
+    texts = [norm_text(_x16(flow, x[2])) for x in f]
     want = [f"{mk.params[0]}.ems.__class__.__module__", f"{mk.params[0]}.ems.__class__.__name__", 'emsarray.__version__']
     alt = [f"type({mk.params[0]}.ems).__module__", f"type({mk.params[0]}.ems).__name__", 'emsarray.__version__']
     ctx.check('R16.1', (sorted(texts) == sorted(want) or sorted(texts) == sorted(alt)) and all(x[1] == 'hash_string' for x in f),
               "besides the geometry, exactly class module, class name and package version are fed", mk, mk.node,
               construct=f"make_cache_key feeds: {texts}")
     hg = [c for c in method_calls(mk, 'hash_geometry')]
-    ok = (len(hg) == 1 and norm_text(hg[0].func.value) == f"{mk.params[0]}.ems" and len(hg[0].args) == 1
+    ok = (len(hg) == 1 and norm_text(_x16(flow, hg[0].func.value)) == f"{mk.params[0]}.ems" and len(hg[0].args) == 1
           and isinstance(hg[0].args[0], ast.Name) and hg[0].args[0].id == hname)
     ctx.check('R16.1', ok, "the geometry of this dataset's convention is hashed into the same hash object", mk, hg[0] if hg else mk.node)
     rets = mk.returns()
